@@ -31,13 +31,16 @@ def sym(V, S, N, name, cond=None):
 
 STUBS = [f"#[kani::stub(core::arch::x86_64::_mm_{n}, crate::c17_support::{n})]" for n in
          ("cmpeq_ps cmpneq_ps cmplt_ps cmple_ps cmpgt_ps cmpge_ps cmpunord_ps cmpord_ps max_ps min_ps "
-          "cmpeq_pd cmpneq_pd cmplt_pd cmple_pd cmpgt_pd cmpge_pd cmpunord_pd cmpord_pd max_pd min_pd").split()]
+          "cmpeq_pd cmpneq_pd cmplt_pd cmple_pd cmpgt_pd cmpge_pd cmpunord_pd cmpord_pd max_pd min_pd "
+          "add_ps sub_ps mul_ps div_ps add_pd sub_pd mul_pd div_pd").split()]
 
 
 class Out17(Out):
-    def harness(self, *a, **k):
+    def harness(self, name, doc, body, *a, **k):
         k["attrs"] = STUBS
-        super().harness(*a, **k)
+        # reachability witness at the END of the harness: the whole body is executable (nothing on the way assumed every input away)
+        body = body.rstrip() + "\nkani::cover!(true);\n"
+        super().harness(name, doc, body, *a, **k)
 
 
 def gen():
@@ -280,19 +283,26 @@ def gen():
     # conversions: one SIMD type, lanes on different branches
     for V, S, N, on in (("f32x4", "f32", 4, "on32"),):
         o.harness(f"c17_{V}_hsv_to_rgb_lanes",
-                  f"HSV -> RGB on {V}: every lane equals the scalar f32 conversion of that lane's colour within 1e-5 (lanes in different hue sectors)",
-                  sym(V, S, N, "h", "({x} >= -360.0 && {x} <= 720.0)") + sym(V, S, N, "s", "({x} >= 0.0 && {x} <= 1.0)") + sym(V, S, N, "v", "({x} >= 0.0 && {x} <= 1.0)") + f"""
+                  f"HSV -> RGB on {V}: a lane holding ANY in-range colour (whichever lane; the others hold fixed colours of other hue sectors) equals the "
+                  f"scalar f32 conversion of that colour within 1e-5",
+                  f"""
+                  let (h, s, v): ({S}, {S}, {S}) = (kani::any(), kani::any(), kani::any());
+                  kani::assume(h >= -360.0 && h <= 720.0 && s >= 0.0 && s <= 1.0 && v >= 0.0 && v <= 1.0);
+                  let lane: usize = kani::any();
+                  kani::assume(lane < {N});
                   kani::cover!(true);
-                  let c = palette::Srgb::<{V}>::from_color_unclamped(palette::Hsv::<palette::encoding::Srgb, {V}>::new(h, s, v));
+                  let (mut ha, mut sa, mut va) = ([10.0 as {S}, 130.0, 250.0, 310.0], [0.5 as {S}; {N}], [0.75 as {S}; {N}]);
+                  ha[lane] = h; sa[lane] = s; va[lane] = v;
+                  let c = palette::Srgb::<{V}>::from_color_unclamped(palette::Hsv::<palette::encoding::Srgb, {V}>::new({V}::from(ha), {V}::from(sa), {V}::from(va)));
                   let (r, g, b) = (c.red.to_array(), c.green.to_array(), c.blue.to_array());
                   let mut k = 0;
                   while k < {N} {{
-                      let sc = palette::Srgb::<{S}>::from_color_unclamped(palette::Hsv::<palette::encoding::Srgb, {S}>::new(h_a[k], s_a[k], v_a[k]));
+                      let sc = palette::Srgb::<{S}>::from_color_unclamped(palette::Hsv::<palette::encoding::Srgb, {S}>::new(ha[k], sa[k], va[k]));
                       assert!((r[k] - sc.red).abs() <= 1e-5 && (g[k] - sc.green).abs() <= 1e-5 && (b[k] - sc.blue).abs() <= 1e-5);
                       k += 1;
                   }}
                   """, ["<Rgb<S, f32x4> as FromColorUnclamped<Hsv<S, f32x4>>>::from_color_unclamped", "lazy_select! on wide masks"],
-                  "all hues in [-360, 720], saturation and value in [0, 1], 4 lanes", thorough=True, unwind=N + 2)
+                  "one lane (any of the 4): all hues in [-360, 720], saturation and value in [0, 1]; other lanes fixed", thorough=True, unwind=N + 2)
         o.harness(f"c17_{V}_rgb_to_hsv_lanes",
                   f"RGB -> HSV on {V} (the branch-free SIMD implementation) against the scalar implementation: saturation and value of every lane "
                   f"within 1e-5, hue within 1e-2 degrees modulo 360 for saturation >= 0.01",
